@@ -29,9 +29,15 @@ def consumers(lib):
     for name, t in lib.ithir.items():
         if any(is_reader_ty(p['ty']) for p in t['params']): cands[name] = t
     direct = set(); calls = {}
+    def own_nodes(name, t):
+        # the function's body and the bodies of the closures written in it (a local `let mut part = |kw| { expect(kw, tokens)?; .. }`)
+        for e in walk(t['body']): yield e
+        for cname, ct in lib.ithir.items():
+            if cname.startswith(name + '::{closure'):
+                for e in walk(ct['body']): yield e
     for name, t in cands.items():
         cs = set()
-        for e in walk(t['body']):
+        for e in own_nodes(name, t):
             if e['k'] == 'Call':
                 cn = callee_name(e) or ''
                 if cn in NEXTS or (cn.endswith('::next') and e['args'] and is_reader_ty(e['args'][0]['ty'])): direct.add(name)
@@ -81,6 +87,13 @@ def rule_A1(F, R):
                 ok_ids.add(id(e['value']))
             if e['k'] == 'Adt' and canon(e['adt']) == 'std::result::Result' and e['variant'] == 'Ok' and id(e) in tail_ids:
                 pass
+        # a propagated `call.map(|v| ..)` / `.map_err(..)` propagates the call's failure unchanged
+        changed = True
+        while changed:
+            changed = False
+            for e in walk(t['body']):
+                if e['k'] == 'Call' and id(e) in ok_ids and (callee_name(e) or '') in ('std::result::Result::map', 'std::result::Result::map_err') and e['args'] and id(e['args'][0]) not in ok_ids:
+                    ok_ids.add(id(e['args'][0])); changed = True
         # Ok(<call>?) is covered because the inner call sits under Try::branch
         ordinal = {}
         for e in walk(t['body']):
@@ -244,6 +257,12 @@ def rule_helpers(F, R):
             R.violation('%s / A / helper shape' % fn, 'A', '%s must %s one token and succeed exactly when it is the given token (%s)' % (nm, 'consume' if nm == 'expect' else 'look at', why), t['span']['loc'] if t else None)
 
 # ------------------------------------------------------------------------------------------------ path walker
+def walk_pat(p):
+    yield p
+    if p.get('sub'): yield from walk_pat(p['sub'])
+    for sp in p.get('subs') or []: yield from walk_pat(sp['pat'])
+    for q in p.get('pats') or []: yield from walk_pat(q)
+
 class St:
     __slots__ = ('ev', 'env')
     def __init__(self, ev=(), env=None): self.ev, self.env = ev, env or {}
@@ -315,7 +334,7 @@ class Walker:
     def r_Array(self, e, st):
         outs, ab = self.run_seq(e['fields'], st)
         return [(s, 'val', ('other',)) for s, vs in outs] + ab
-    def r_Closure(self, e, st): return [(st, 'val', ('other',))]
+    def r_Closure(self, e, st): return [(st, 'val', ('closure', canon(e['def'])))]
     def r_ZstLiteral(self, e, st):
         if 'fn' in e: return [(st, 'val', ('fnitem', canon(e['fn'].get('res') or e['fn']['def'])))]       # a function passed as a value (`Self::parse_variable_name`)
         return [(st, 'val', ('other',))]
@@ -338,6 +357,8 @@ class Walker:
             byidx = {f['idx']: v for f, v in zip(e['fields'], vs)}
             if adt == 'std::result::Result':
                 res.append((s, 'val', ('ok', byidx.get(0)) if e['variant'] == 'Ok' else ('err',)))
+            elif adt == 'std::option::Option':
+                res.append((s, 'val', ('some', byidx.get(0)) if e['variant'] == 'Some' else ('none',)))
             elif adt == SYN:
                 n = max(byidx) + 1 if byidx else 0
                 res.append((s, 'val', ('cons', e['variant'], [byidx.get(i) for i in range(n)], e['loc'])))
@@ -363,13 +384,105 @@ class Walker:
                         nxt.append(s); continue
                     for (s2, k, v) in self.run(s_['init'], s):
                         if k != 'val': abrupt.append((s2, k, v)); continue
-                        nxt.append(self.bind_pat(s_['pat'], v, s2))
+                        for (s3, v3) in self.concretize(v, s2):
+                            if s_.get('else') is not None:
+                                # `let PAT = value else { diverge };`
+                                s4 = self.pm(s_['pat'], v3, s3)
+                                if s4 is not None: nxt.append(s4); continue
+                                for (s5, k5, v5) in self.run(s_['else'], s3):
+                                    if k5 == 'val': raise Undec('the else block of a let-else completes', s_['else'].get('loc'))
+                                    abrupt.append((s5, k5, v5))
+                            else:
+                                q_ = s_['pat']
+                                while q_['k'] in ('Deref', 'DerefPattern'): q_ = q_['sub']
+                                if q_['k'] == 'Leaf' and 'adt' not in q_ and v3[0] == 'tuple':
+                                    s4 = self.pm(q_, v3, s3)
+                                    nxt.append(s4 if s4 is not None else s3)
+                                else: nxt.append(self.bind_pat(s_['pat'], v3, s3))
             states = nxt
         out = []
         for s in states:
             if e['expr'] is not None: out.extend(self.run(e['expr'], s))
             else: out.append((s, 'val', ('unit',)))
         return out + abrupt
+
+    def concretize(self, v, st):
+        """a token read whose value is kept (`let t = tokens.peek();`, `tokens.next().and_then(..)`) instead of being matched on the spot:
+        one path per token that can be there, each with the test / consumption as its event and the token as a constant"""
+        if v not in (('peek',), ('next',)): return [(st, v)]
+        out = []
+        for X in ALL_TOKENS:
+            s2 = st.with_ev(('la', frozenset([X]))) if v == ('peek',) else st.with_ev(('tok', X))
+            out.append((s2, ('none',) if X == 'NONE' else ('some', ('token', X))))
+        return out
+
+    def pm(self, p, v, st):
+        """pattern against a value known on this path: the state with the pattern's bindings if it accepts, None if it refuses"""
+        while p['k'] in ('Deref', 'DerefPattern'): p = p['sub']
+        k = p['k']
+        if k == 'Wild': return st
+        if k == 'Binding':
+            if p.get('sub'):
+                r = self.pm(p['sub'], v, st)
+                return None if r is None else r.bind(p['var'], v)
+            return st.bind(p['var'], v)
+        if k == 'Or':
+            for q in p['pats']:
+                r = self.pm(q, v, st)
+                if r is not None: return r
+            return None
+        if k == 'Leaf' and 'adt' not in p and v[0] in ('tuple', 'unit'):
+            vs = v[1] if v[0] == 'tuple' else []
+            for sp in p['subs']:
+                if sp['field'] >= len(vs): raise Undec('tuple pattern wider than the value', p.get('loc'))
+                st = self.pm(sp['pat'], vs[sp['field']], st)
+                if st is None: return None
+            return st
+        if k == 'Variant':
+            adt = canon(p['adt'])
+            if adt == 'std::option::Option' and v[0] in ('some', 'none'):
+                if v[0] == 'none': return st if p['variant'] == 'None' else None
+                if p['variant'] != 'Some': return None
+                return self.pm(p['subs'][0]['pat'], v[1], st) if p['subs'] else st
+            if adt == TOK and v[0] == 'token':
+                if p['variant'] != v[1]: return None
+                for sp in p.get('subs') or []:
+                    for q in walk_pat(sp['pat']):
+                        if q['k'] == 'Binding': st = st.bind(q['var'], ('other',))
+                return st
+            if v[0] == 'enum' and adt == v[1]:
+                if p['variant'] != v[2]: return None
+                if not p.get('subs'): return st
+        if k == 'Constant' and v[0] == 'lit' and isinstance(v[1], bool):
+            cv = str(p.get('value'))
+            return st if (('true' in cv or '0x01' in cv) and v[1] is True) or (('false' in cv or '0x00' in cv) and v[1] is False) else None
+        raise Undec('pattern %s against %r' % (pp_pat(p), v[:1]), p.get('loc'))
+
+    def apply(self, f, args, st, loc, depth=0):
+        """call of a closure written in the parse function, or of a function handed over as a value, on values known on this path"""
+        name = f[1]
+        t = self.lib.ithir.get(name)
+        if t is None: raise Undec('call of %s, whose body is not known' % name, loc)
+        if getattr(self, '_depth', 0) > 6: raise Undec('helper calls nested too deeply', loc)
+        ps = [p for p in t['params'] if 'pat' in p]
+        if f[0] == 'closure': ps = ps[-len(args):] if args else []
+        if len(ps) != len(args): raise Undec('call of %s with %d argument(s)' % (name.split('::')[-1], len(args)), loc)
+        s = st
+        for p_, a in zip(ps, args):
+            s2 = self.pm(p_['pat'], a, s)
+            if s2 is None: raise Undec('parameter pattern refuses the argument', loc)
+            s = s2
+        self._depth = getattr(self, '_depth', 0) + 1
+        try:
+            out = []
+            for (s3, k, v) in self.run(t['body'], s):
+                if k == 'val': out.append((s3, 'val', v))
+                elif k == 'ret_ok': out.append((s3, 'val', ('ok', v)))
+                elif k == 'ret_err': out.append((s3, 'val', ('err',)))
+                else: raise Undec('%s leaves a called closure / helper' % k, loc)
+            return out
+        finally:
+            self._depth -= 1
 
     def bind_pat(self, p, v, st):
         while p['k'] in ('Deref', 'DerefPattern'): p = p['sub']
@@ -482,6 +595,15 @@ class Walker:
         for (s, k, v) in self.run(scr, st):
             if k != 'val': out.append((s, k, v)); continue
             if v[0] in ('peek', 'next'):
+                try:
+                    for arm in e['arms']:
+                        if any(q['k'] == 'Binding' and q.get('sub') for q in walk_pat(arm['pat'])): raise Undec('binding with a sub-pattern')
+                        if arm['guard'] is None:
+                            for p in flat_pats(arm['pat']): self.pat_tokens(p)
+                except Undec:
+                    # patterns beyond the plain token tests (`Some(kw @ (A | B))`): one path per token, the patterns decided on the constant
+                    for (s3, v3) in self.concretize(v, s): out.extend(self.const_match(e, v3, s3))
+                    continue
                 earlier = set()
                 none_seen = False
                 for arm in e['arms']:
@@ -515,6 +637,8 @@ class Walker:
                     earlier |= set(toks)
                     none_seen = none_seen or has_none
                 continue
+            if v[0] in ('some', 'none', 'tuple') or (v[0] == 'token' and any(q.get('subs') or q['k'] in ('Binding', 'Or') and q.get('sub') for arm in e['arms'] for q in walk_pat(arm['pat']))):
+                out.extend(self.const_match(e, v, s)); continue
             if v[0] in ('enum', 'token', 'lit'):
                 # match on a value known on this path (a constant argument of a specialised parse function): the first arm that accepts it
                 taken = False
@@ -539,6 +663,20 @@ class Walker:
                 continue
             raise Undec('match on %s in a parse function' % pp(scr)[:60], e['loc'])
         return out
+
+    def _plain_lookahead(self, e, st):
+        """is this peek().map_or(false, |t| **t == T) / is_some_and(..) the plain look-ahead test handled below?"""
+        cl = e['args'][-1]
+        while cl['k'] in ('Use', 'Borrow', 'Deref', 'NeverToAny'): cl = cl.get('source') or cl.get('arg')
+        return cl['k'] == 'Closure' and self.lookahead_token(cl, st) is not None
+
+    def const_match(self, e, v, s):
+        """match on a value known on this path: the first arm whose pattern accepts it"""
+        for arm in e['arms']:
+            if arm['guard'] is not None: raise Undec('guard on a constant match', e['loc'])
+            s2 = self.pm(arm['pat'], v, s)
+            if s2 is not None: return self.run(arm['body'], s2)
+        raise Undec('no arm accepts the constant %r' % (v[:2],), e['loc'])
 
     def lookahead_token(self, closure, st):
         """the tokens accepted by a closure `|t| **t == T` (either operand order) or `|t| matches!(t, T1 | T2 | ..)` (also through a
@@ -591,7 +729,96 @@ class Walker:
             if len(fv) == 1 and fv[0][1] == 'val' and fv[0][2][0] == 'fnitem':
                 e = dict(e); e['callee'] = {'def': fv[0][2][1], 'res': fv[0][2][1]}
                 cn = fv[0][2][1]
+            elif len(fv) == 1 and fv[0][1] == 'val' and fv[0][2][0] == 'closure':
+                outs, ab = self.run_seq(e['args'], fv[0][0])
+                res = list(ab)
+                for (s, vs) in outs: res.extend(self.apply(fv[0][2], vs, s, loc))
+                return res
             else: raise Undec('call through a value that is not a known function', loc)
+        dn = canon((e.get('callee') or {}).get('def') or '')
+        if dn in ('std::ops::FnMut::call_mut', 'std::ops::Fn::call', 'std::ops::FnOnce::call_once') and len(e['args']) == 2:
+            # `part(KW)` on a local closure: Fn*::call*(&mut part, (KW,))
+            fv = self.run(e['args'][0], st)
+            if len(fv) == 1 and fv[0][1] == 'val' and fv[0][2][0] in ('closure', 'fnitem'):
+                outs, ab = self.run_seq([e['args'][1]], fv[0][0])
+                res = list(ab)
+                for (s, vs) in outs:
+                    args = vs[0][1] if vs[0][0] == 'tuple' else [] if vs[0][0] == 'unit' else None
+                    if args is None: raise Undec('closure called with an argument list that is not spelt out', loc)
+                    if fv[0][2][0] == 'fnitem' and fv[0][2][1] in self.K and fv[0][2][1] in __import__('facts').baseline_fns():
+                        raise Undec('call of a parse function through Fn::call', loc)
+                    res.extend(self.apply(fv[0][2], args, s, loc))
+                return res
+        if cn.startswith('std::iter::Peekable::next_if_eq') or cn.startswith('std::iter::Peekable::next_if'):
+            # tokens.next_if_eq(&&T) / tokens.next_if(|t| **t == T): consumes the next token exactly when it is T
+            toks = None
+            if cn.endswith('next_if_eq') and len(e['args']) == 2:
+                tv = self.run(e['args'][1], st)
+                if len(tv) == 1 and tv[0][1] == 'val' and tv[0][2][0] == 'token': toks = frozenset([tv[0][2][1]])
+            elif cn.endswith('next_if') and len(e['args']) == 2:
+                cl = e['args'][1]
+                while cl['k'] in ('Use', 'Borrow', 'Deref', 'NeverToAny'): cl = cl.get('source') or cl.get('arg')
+                toks = self.lookahead_token(cl, st) if cl['k'] == 'Closure' else None
+            if not toks: raise Undec('next_if / next_if_eq on something other than constant tokens', loc)
+            res = [(st.with_ev(('nla', toks)), 'val', ('none',))]
+            for t_ in sorted(toks): res.append((st.with_ev(('la', frozenset([t_]))).with_ev(('tok', t_)), 'val', ('some', ('token', t_))))
+            return res
+        OPT = 'std::option::Option::'
+        if cn in (OPT + 'and_then', OPT + 'map', OPT + 'copied', OPT + 'cloned', OPT + 'as_ref', OPT + 'is_none', OPT + 'is_some', OPT + 'ok_or', OPT + 'ok_or_else',
+                  OPT + 'filter', OPT + 'is_some_and', OPT + 'map_or', OPT + 'unwrap_or', OPT + 'or') and e['args']:
+            first = self.run(e['args'][0], st)
+            res = []
+            handled = True
+            for (s1, k1, v1) in first:
+                if k1 != 'val': res.append((s1, k1, v1)); continue
+                if v1 not in (('peek',), ('next',)) and v1[0] not in ('some', 'none'): handled = False; break
+                if v1 in (('peek',), ('next',)) and cn in (OPT + 'copied', OPT + 'cloned', OPT + 'as_ref'):
+                    res.append((s1, 'val', v1)); continue        # still the unread token: decided where it is looked at
+                for (s2, v2) in self.concretize(v1, s1):
+                    outs, ab = self.run_seq(e['args'][1:], s2)
+                    res.extend(ab)
+                    for (s3, vs) in outs:
+                        m = cn[len(OPT):]
+                        if m in ('copied', 'cloned', 'as_ref'): res.append((s3, 'val', v2))
+                        elif m == 'is_none': res.append((s3, 'val', ('lit', v2[0] == 'none')))
+                        elif m == 'is_some': res.append((s3, 'val', ('lit', v2[0] == 'some')))
+                        elif m in ('ok_or', 'ok_or_else'): res.append((s3, 'val', ('ok', v2[1]) if v2[0] == 'some' else ('err',)))
+                        elif m == 'unwrap_or': res.append((s3, 'val', v2[1] if v2[0] == 'some' else vs[0]))
+                        elif m == 'or': res.append((s3, 'val', v2 if v2[0] == 'some' else vs[0]))
+                        elif v2[0] == 'none':
+                            res.append((s3, 'val', ('lit', False) if m == 'is_some_and' else vs[0] if m == 'map_or' else ('none',)))
+                        else:
+                            f = vs[-1]
+                            if f[0] not in ('closure', 'fnitem'): raise Undec('%s with a function that is not spelt out' % m, loc)
+                            for (s4, k4, v4) in self.apply(f, [v2[1]], s3, loc):
+                                if k4 != 'val': res.append((s4, k4, v4)); continue
+                                if m == 'and_then': res.append((s4, 'val', v4))
+                                elif m == 'map': res.append((s4, 'val', ('some', v4)))
+                                elif m == 'filter':
+                                    if v4[0] != 'lit': raise Undec('filter with a test that is not decided', loc)
+                                    res.append((s4, 'val', v2 if v4[1] else ('none',)))
+                                else: res.append((s4, 'val', v4))
+            if handled and not (cn in (OPT + 'map_or', OPT + 'is_some_and') and len(first) == 1 and first[0][2] == ('peek',) and self._plain_lookahead(e, st)):
+                return res
+        if cn == 'std::result::Result::map' and len(e['args']) == 2:
+            first = self.run(e['args'][0], st)
+            if all(k1 != 'val' or v1[0] in ('res', 'ok', 'err') for (_, k1, v1) in first):
+                res = []
+                for (s1, k1, v1) in first:
+                    if k1 != 'val' or v1[0] == 'err': res.append((s1, k1, v1)); continue
+                    outs, ab = self.run_seq(e['args'][1:], s1)
+                    res.extend(ab)
+                    for (s3, vs) in outs:
+                        if vs[0][0] not in ('closure', 'fnitem'): raise Undec('Result::map with a function that is not spelt out', loc)
+                        for (s4, k4, v4) in self.apply(vs[0], [v1[1]], s3, loc):
+                            res.append((s4, k4, (v1[0], v4) if k4 == 'val' else v4))
+                return res
+        if cn in self.K and cn not in (EXPECT, CHECK) and cn not in __import__('facts').baseline_fns() and cn in self.lib.ithir and getattr(self, '_depth', 0) < 4:
+            # a new helper that reads tokens (`parse_quantified_part`): walked in place, its events are the caller's
+            outs, ab = self.run_seq(e['args'], st)
+            res = list(ab)
+            for (s, vs) in outs: res.extend(self.apply(('fnitem', cn), vs, s, loc))
+            return res
         if cn in NEXTS or cn in PEEKS:
             return [(st, 'val', ('next',) if cn in NEXTS else ('peek',))]
         if cn in ('std::option::Option::map_or', 'std::option::Option::is_some_and') and e['args']:
@@ -971,6 +1198,7 @@ def rule_A3(F, R, ex=None):
         t = lib.ithir[fname]
         extra = [p for p in t['params'] if not is_reader_ty(p['ty'])]
         variants = [()] if not extra else call_site_consts(lib, K, fname, len(extra))
+        if variants is None: variants = walked_consts(lib, K, fname)
         if variants is None:
             R.violation('%s / A3 / UNDECIDABLE / non-constant extra argument' % fname, 'UNDECIDABLE', 'parse function %s is called with an extra argument that is not a constant' % fname.split('::')[-1]); continue
         for lits in variants:
@@ -1039,6 +1267,76 @@ def rule_A3(F, R, ex=None):
         ok = c in seen
         R.obligation(ok, 'A3 seen ' + c)
         if not ok: R.violation('rsbdd::parser / A3 / no path builds %s' % c, 'A3', 'no parse path constructs %s' % c)
+
+def consumed_tokens(evs):
+    """the tokens a path consumes itself, in order (each a frozenset of the tokens it may be), calls to parse functions as ('nt', name, lits)"""
+    out = []; pending = set()
+    for ev in evs:
+        if ev[0] == 'tok': out.append(frozenset([ev[1]])); pending = set()
+        elif ev[0] in ('la', 'nla'): pending.add(ev)
+        elif ev[0] == 'anytok': out.append(allowed(frozenset(pending | {('nla', ev[1])}))); pending = set()
+        elif ev[0] in ('nt', 'loop'): out.append(ev); pending = set()
+    return out
+
+def walked_tables(lib):
+    """the token tables of the parser read from its success paths (whatever form the dispatch takes):
+    binop {token: operator}, countop {token: operator}, fixpoint {token: initial}, each None when the paths cannot be walked"""
+    K, _ = consumers(lib)
+    out = {'binop': None, 'countop': None, 'fixpoint': None}
+    try:
+        tab = {}
+        for (evs, v, env) in Walker(lib, K).paths(PARSER + 'parse_binary_operator'):
+            cons = consumed_tokens(evs)
+            if len(cons) == 1 and isinstance(cons[0], frozenset) and len(cons[0]) == 1 and v is not None and v[0] == 'enum' and v[1] == 'rsbdd::parser::BinaryOperator':
+                tab.setdefault(sorted(cons[0])[0], set()).add(v[2])
+            else: tab.setdefault('?', set()).add(str(v)[:40])
+        out['binop'] = tab
+    except (Undec, KeyError): pass
+    try:
+        tab = {}
+        for (evs, v, env) in Walker(lib, K).paths(PARSER + 'parse_countable_formula'):
+            cons = consumed_tokens(evs)
+            op = v[2][0] if v is not None and v[0] == 'cons' and v[1] in ('CountableConst', 'CountableVariable') and v[2] else None
+            if len(cons) >= 2 and isinstance(cons[1], frozenset) and len(cons[1]) == 1 and op is not None and op[0] == 'enum' and op[1] == 'rsbdd::parser::CountableOperator':
+                tab.setdefault(sorted(cons[1])[0], set()).add(op[2])
+            else: tab.setdefault('?', set()).add(str(v)[:40])
+        out['countop'] = tab
+    except (Undec, KeyError): pass
+    try:
+        tab = {}
+        for (evs, v, env) in Walker(lib, K).paths(SIMPLE):
+            last = None
+            for ev in evs:
+                if ev[0] == 'la': last = ev[1] if last is None else last & ev[1]
+                elif ev[0] == 'nt' and ev[1] == PARSER + 'parse_fixed_point':
+                    for tk in (last or ['?']): tab.setdefault(tk, set()).add(ev[2][0] if len(ev[2]) == 1 else None)
+                    break
+                elif ev[0] in ('tok', 'anytok', 'nt', 'loop'): break
+        out['fixpoint'] = tab
+    except (Undec, KeyError): pass
+    return out
+
+def walked_consts(lib, K, fname):
+    """the constant extra arguments with which `fname` is reached on the success paths of its callers (for arguments computed on the
+    way: `let initial = matches!(keyword, Token::GFP); parse_fixed_point(tokens, initial)`); None if that cannot be read"""
+    out = []
+    def all_evs(evs):
+        for ev in evs:
+            yield ev
+            if ev[0] == 'loop':
+                for p in tuple(ev[1]) + tuple(ev[2]): yield from all_evs(p)
+    for g in sorted(K):
+        t = lib.ithir.get(g)
+        if t is None or g in (EXPECT, CHECK) or g == fname: continue
+        own = list(walk(t['body'])) + [x for cn_, ct in lib.ithir.items() if cn_.startswith(g + '::{closure') for x in walk(ct['body'])]
+        if not any(e['k'] == 'Call' and callee_name(e) == fname for e in own): continue
+        if [p for p in t['params'] if not is_reader_ty(p['ty'])]: return None
+        try: paths = Walker(lib, K).paths(g)
+        except Undec: return None
+        for (evs, v, env) in paths:
+            for ev in all_evs(evs):
+                if ev[0] == 'nt' and ev[1] == fname and ev[2] not in out: out.append(ev[2])
+    return out or None
 
 def call_site_consts(lib, K, fname, n_extra):
     """the tuples of constant extra arguments (bool literals, unit enum variants) with which `fname` is called from the parse
